@@ -121,6 +121,9 @@ package peers
 //@   modifies p.statuses
 //@   ensures countEq(p.statuses, active) == old(countEq(p.statuses, active)) && p.activeCount == old(p.activeCount) && p.statuses == old(p.statuses)
 //@   loop 1: invariant countEq(p.statuses, active) == old(countEq(p.statuses, active)) && p.activeCount == old(p.activeCount) && p.statuses == old(p.statuses) && p.peersList == old(p.peersList)
+// (compaction drops only removed peers: a peer that is active or cooling down keeps its place in the list
+// tryGet walks - a cooling-down peer becomes active again later and must still be found there)
+//@   loop 1: hint status == active || status == cooldown ==> len(newList) == len(head(newList)) + 1 && newList[len(newList)-1] == peerID
 
 //@ extern (*github.com/celestiaorg/celestia-node/share/shwap/p2p/shrex/peers.pool).remove
 //@   requires !$PoolLocked && !$QueueLocked
